@@ -498,6 +498,10 @@ class AlignmentCollector:
             max_cov = coverage_dict[current_start]
             pos = min(current_start + 1, coverage_positions[-1] + 1)
 
+        if not split_regions:
+            # all alignments start and end in the same coverage bin: nothing to split
+            return [genomic_region]
+
         if split_regions[-1][1] < genomic_region[1]:
             # the split point was the last coverage bin: keep its alignments in the last region
             split_regions[-1] = (split_regions[-1][0], genomic_region[1])
